@@ -579,6 +579,8 @@ def _r4(ctx):
         raise AnalysisError("sum_intervals: operand %s of the membership predicate not understood" % t)
 
     def ev(e, x, lo, hi):
+        if isinstance(e, ast.IfExp):                # a comparison chosen by a test on the class edges
+            return ev(e.body if ev(e.test, x, lo, hi) else e.orelse, x, lo, hi)
         if isinstance(e, ast.BinOp) and isinstance(e.op, (ast.BitAnd, ast.BitOr)):
             l_, r_ = ev(e.left, x, lo, hi), ev(e.right, x, lo, hi)
             return (l_ and r_) if isinstance(e.op, ast.BitAnd) else (l_ or r_)
